@@ -38,6 +38,7 @@ type pgen struct {
 	gens  []string
 	nstmt int
 	uniq  int
+	limit int
 	wild  bool // may place break/continue/return/yield where the grammar's context rules forbid them
 }
 
@@ -47,8 +48,8 @@ func (g *pgen) line(format string, a ...interface{}) {
 	g.b.WriteByte('\n')
 	g.nstmt++
 }
-func (g *pgen) n(k int) int         { return g.rng.Intn(k) }
-func (g *pgen) p(pct int) bool      { return g.rng.Intn(100) < pct }
+func (g *pgen) n(k int) int              { return g.rng.Intn(k) }
+func (g *pgen) p(pct int) bool           { return g.rng.Intn(100) < pct }
 func (g *pgen) pick(xs ...string) string { return xs[g.rng.Intn(len(xs))] }
 func (g *pgen) fresh(prefix string) string {
 	g.uniq++
@@ -146,11 +147,11 @@ func (g *pgen) expr(c ctx, d int) string {
 		return g.pick("list", "sum", "tuple") + "(" + g.exprWith(c, d-1, x) + " for " + x + " in range(3)" + g.compIf(c, d, x) + ")"
 	case 24:
 		x := g.fresh("x")
-		return "(lambda " + x + ", y=" + e() + ", *a, k=" + e() + ", **kw: " + x + " + y + k)(" + e() + ")"
+		return "(lambda " + x + g.pick(", y="+e(), ", y=1, *a", ", y=2, *a, k="+e()+", **kw", ", *, y="+e()) + ": " + x + " + y)(" + e() + ")"
 	case 25:
 		return "(lambda: " + e() + ")()"
 	case 26:
-		if c.isGen || (g.wild && g.p(30)) {
+		if c.isGen || (g.wild && g.p(2)) {
 			return "(yield " + e() + ")"
 		}
 		return "cm.s"
@@ -198,7 +199,7 @@ func (g *pgen) compIf(c ctx, d int, v string) string {
 func (g *pgen) block(c ctx, minStmts int) {
 	g.ind++
 	c.depth++
-	k := minStmts + g.n(3)
+	k := minStmts + g.n(2)
 	if k == 0 {
 		k = 1
 	}
@@ -214,7 +215,7 @@ func (g *pgen) simple(c ctx) {
 	e := func(d int) string { return g.expr(c, d) }
 	switch g.n(26) {
 	case 0, 1, 2:
-		g.line("%s = %s", g.ivar(), e(2))
+		g.line("%s = %s", g.ivar(), e(1+g.n(2)))
 	case 3, 4:
 		g.line("%s %s= %s", g.ivar(), g.pick("+", "-", "*", "//", "%", "&", "|", "^", "<<", ">>", "**"), e(1))
 	case 5:
@@ -236,7 +237,7 @@ func (g *pgen) simple(c ctx) {
 	case 13:
 		g.line("ident(%s)", e(2))
 	case 14:
-		g.line("%s", e(3))
+		g.line("%s", e(2))
 	case 15:
 		g.line("assert %s%s", e(1), g.pick("", ", 'msg'", ", "+e(0)))
 	case 16:
@@ -262,7 +263,7 @@ func (g *pgen) simple(c ctx) {
 			g.line("%s += 1", g.ivar())
 		}
 	default:
-		g.line("%s = %s", g.ivar(), e(3))
+		g.line("%s = %s", g.ivar(), e(2))
 	}
 }
 
@@ -272,11 +273,13 @@ func (g *pgen) exits(c ctx) {
 	var opts []string
 	if c.loops > 0 || (g.wild && c.guarded > 0) {
 		opts = append(opts, "break", "break")
-		if !c.inFinal || g.wild {
+		if c.loops > 0 && (!c.inFinal || (g.wild && g.p(10))) {
 			opts = append(opts, "continue", "continue")
+		} else if g.wild && g.p(5) {
+			opts = append(opts, "continue")
 		}
 	}
-	if c.inFunc || (g.wild && g.p(5)) {
+	if c.inFunc || (g.wild && g.p(3)) {
 		if c.isGen {
 			opts = append(opts, "return")
 		} else {
@@ -291,7 +294,7 @@ func (g *pgen) exits(c ctx) {
 }
 
 func (g *pgen) stmt(c ctx) {
-	if c.depth >= 5 || g.nstmt > 260 {
+	if c.depth >= 5 || g.nstmt > g.limit {
 		g.simple(c)
 		return
 	}
@@ -420,7 +423,7 @@ func (g *pgen) stmt(c ctx) {
 		}
 	case 19:
 		if c.inFunc {
-			g.line("%s", g.pick("global v3", "global gl", "nonlocal_free = 1"))
+			g.line("gl %s= %s", g.pick("", "+", "-"), g.expr(c, 1))
 		} else {
 			g.line("%s", g.pick("import math", "from math import pi, e as E", "import math as m", "from math import *"))
 		}
@@ -430,21 +433,28 @@ func (g *pgen) stmt(c ctx) {
 }
 
 func (g *pgen) params() string {
-	return g.pick("a, b", "a, b=2", "a=1, b=2", "a, b=2, *args", "a, b=2, **kw", "a, b=2, *args, k=3, **kw", "a, *, b=2", "a, b=2, *, k, j=4",
+	return g.pick("a, b", "a, b", "a, b", "a, b=2", "a=1, b=2", "a, b=2, *args", "a, b=2, **kw", "a, b=2, *args, k=3, **kw", "a, *, b=2", "a, b=2, *, k, j=4",
 		"a: int, b: 'ann' = 2", "a, b: int = 2, *args: 'va', k: int = 3, **kw: 'kwa'")
 }
 
 func (g *pgen) funcDef(c ctx, top bool) string {
 	name := g.fresh("f")
 	isGen := g.p(30)
-	for g.p(25) {
-		g.line("@%s", g.pick("ident", "deco(1)", "ident"))
-	}
+	params := g.params()
 	ret := ""
-	if g.p(20) {
+	if g.p(15) {
 		ret = " -> " + g.pick("int", "'r'", "None")
 	}
-	g.line("def %s(%s)%s:", name, g.params(), ret)
+	// decorators mostly on functions without defaults or annotations (the others fail at definition time
+	// on the present tree and would end the program early)
+	ndeco := 3
+	if params == "a, b" && ret == "" {
+		ndeco = 40
+	}
+	for g.p(ndeco) {
+		g.line("@%s", g.pick("ident", "deco(1)", "ident"))
+	}
+	g.line("def %s(%s)%s:", name, params, ret)
 	fc := ctx{inFunc: true, isGen: isGen, depth: c.depth}
 	g.ind++
 	if g.p(30) {
@@ -452,6 +462,9 @@ func (g *pgen) funcDef(c ctx, top bool) string {
 	}
 	if c.inFunc && g.p(50) {
 		g.line("nonlocal v0")
+	}
+	if g.p(50) {
+		g.line("global gl")
 	}
 	g.line("v1 = a")
 	g.line("v2 = v3 = 0")
@@ -509,7 +522,7 @@ func (g *pgen) classDef(c ctx) {
 	g.line("def __init__(self, s=0):")
 	g.ind++
 	if strings.HasPrefix(base, "(CM") || strings.HasPrefix(base, "(Base") {
-		g.line("%s", g.pick("super().__init__(s)", "self.s = s", "CM.__init__(self, s)"))
+		g.line("%s", g.pick("Base.__init__(self, s)", "self.s = s", "CM.__init__(self, s)"))
 	}
 	g.line("self.s = s")
 	g.line("self.k = __class__" + g.pick("", ".attr"))
@@ -581,37 +594,35 @@ cm = CM(0)
 
 // program builds one program of the given family.
 func program(rng *rand.Rand, family string) string {
-	g := &pgen{rng: rng}
+	g := &pgen{rng: rng, limit: 70}
 	g.b.WriteString(prelude)
 	g.wild = family == "wild"
 	top := ctx{}
 	switch family {
 	case "ctl", "wild":
-		for i, k := 0, 1+g.n(3); i < k; i++ {
+		for i, k := 0, 1+g.n(2); i < k; i++ {
 			g.funcDef(top, true)
 		}
-		for i, k := 0, 2+g.n(4); i < k; i++ {
+		for i, k := 0, 1+g.n(3); i < k; i++ {
 			g.stmt(top)
 		}
 	case "expr":
 		g.funcDef(top, true)
-		for i, k := 0, 6+g.n(8); i < k; i++ {
+		for i, k := 0, 4+g.n(6); i < k; i++ {
 			g.simple(top)
 		}
-		g.line("v0 = %s", g.expr(top, 5))
+		g.line("v0 = %s", g.expr(top, 4))
 	case "scope":
-		for i, k := 0, 1+g.n(2); i < k; i++ {
-			g.classDef(top)
-			g.funcDef(top, true)
-		}
+		g.classDef(top)
+		g.funcDef(top, true)
 	case "lines":
 		// gaps in line numbers and long lines: multi-entry line table increments
 		g.funcDef(top, true)
 		g.b.WriteString(strings.Repeat("\n", 250+g.n(300)))
-		g.line("v0 = %s", g.expr(top, 4))
+		g.line("v0 = %s", g.expr(top, 3))
 		var xs []string
-		for i := 0; i < 60+g.n(80); i++ {
-			xs = append(xs, g.expr(top, 1))
+		for i, n := 0, 180+g.n(140); i < n; i++ { // 540..960 bytes of code on one line
+			xs = append(xs, g.expr(top, 0))
 		}
 		g.line("lst = [%s]", strings.Join(xs, ", "))
 		g.b.WriteString(strings.Repeat("#\n", g.n(300)))
@@ -645,6 +656,15 @@ func program(rng *rand.Rand, family string) string {
 		g.line("v3 = -2")
 		g.ind--
 	}
+	if family == "lines" {
+		// the last statement of the file sits behind a gap of more than 255 lines: any surplus in the
+		// accumulated line increments leaves the source
+		g.b.WriteString(strings.Repeat("\n", 256+g.n(300)))
+		g.b.WriteString("v2 = v0")
+		if g.p(50) {
+			g.b.WriteString("\n")
+		}
+	}
 	return g.b.String()
 }
 
@@ -658,28 +678,109 @@ func generate(rng *rand.Rand, n int) []*Source {
 	return out
 }
 
+// gridSources enumerates small control-flow shapes exhaustively: every exit statement (break, continue,
+// return, raise) at every clause position (loop body, loop else, try body of try/finally and try/except,
+// except body with and without a name, else of try, finally body, with body), alone and nested in every
+// other clause position, inside a loop in a function.  Each shape is its own program (the compiler rejects
+// some, e.g. continue in finally).  full = both kinds of outer loop.
+func gridSources(full bool) []*Source {
+	type clause struct {
+		name string
+		open func(ind string, hole func(ind string) string) string
+	}
+	clauses := []clause{
+		{"loopbody", func(in string, h func(string) string) string { return in + "for j in [1, 2]:\n" + h(in+"    ") }},
+		{"loopelse", func(in string, h func(string) string) string {
+			return in + "for j in [1]:\n" + in + "    r += 1\n" + in + "else:\n" + h(in+"    ")
+		}},
+		{"tryfinally", func(in string, h func(string) string) string {
+			return in + "try:\n" + h(in+"    ") + in + "finally:\n" + in + "    r += 1\n"
+		}},
+		{"tryexcept", func(in string, h func(string) string) string {
+			return in + "try:\n" + h(in+"    ") + in + "except ValueError:\n" + in + "    r += 1\n"
+		}},
+		{"except", func(in string, h func(string) string) string {
+			return in + "try:\n" + in + "    raise ValueError\n" + in + "except ValueError:\n" + h(in+"    ")
+		}},
+		{"exceptas", func(in string, h func(string) string) string {
+			return in + "try:\n" + in + "    raise ValueError\n" + in + "except ValueError as e:\n" + h(in+"    ")
+		}},
+		{"tryelse", func(in string, h func(string) string) string {
+			return in + "try:\n" + in + "    r += 1\n" + in + "except ValueError:\n" + in + "    pass\n" + in + "else:\n" + h(in+"    ")
+		}},
+		{"finally", func(in string, h func(string) string) string {
+			return in + "try:\n" + in + "    r += 1\n" + in + "finally:\n" + h(in+"    ")
+		}},
+		{"with", func(in string, h func(string) string) string { return in + "with CM():\n" + h(in+"    ") }},
+	}
+	exits := []string{"break", "continue", "return r", "raise KeyError"}
+	outers := []string{"for i in [1, 2, 3]:"}
+	if full {
+		outers = append(outers, "while i < 3:")
+	}
+	const head = "class CM:\n    def __enter__(self):\n        return self\n    def __exit__(self, t, v, tb):\n        return False\n"
+	var out []*Source
+	emit := func(name, outer, body string) {
+		var b strings.Builder
+		b.WriteString(head + "def g(a):\n    r = 0\n    i = 0\n    " + outer + "\n        i += 1\n" + body + "        r += 10\n    return r\n")
+		b.WriteString("for a in [0, 1, 2]:\n    try:\n        g(a)\n    except KeyError:\n        pass\n")
+		out = append(out, &Source{Name: name, Origin: "grid", Text: b.String(), Run: true, Class: "grid"})
+	}
+	for oi, outer := range outers {
+		for _, ex := range exits {
+			leaf := func(in string) string { return in + "if a == i:\n" + in + "    " + ex + "\n" + in + "r += 1\n" }
+			for _, c1 := range clauses {
+				emit(fmt.Sprintf("grid_%d_%s_%s.py", oi, c1.name, strings.Fields(ex)[0]), outer, c1.open("        ", leaf))
+				for _, c2 := range clauses {
+					c2 := c2
+					emit(fmt.Sprintf("grid_%d_%s_%s_%s.py", oi, c1.name, c2.name, strings.Fields(ex)[0]), outer,
+						c1.open("        ", func(in string) string { return c2.open(in, leaf) }))
+				}
+			}
+		}
+	}
+	return out
+}
+
 // probeSources: fixed programs for corners the random families reach rarely.
 func probeSources(env *common.Env) []*Source {
 	var out []*Source
 	add := func(name, text string) {
 		out = append(out, &Source{Name: name, Origin: "probe", Text: text, Run: true, Class: "probe"})
 	}
-	// absolute jump targets beyond 65535: EXTENDED_ARG on POP_JUMP_IF_FALSE / JUMP_ABSOLUTE
+	// absolute jump targets beyond 65535: EXTENDED_ARG on POP_JUMP_IF_FALSE / JUMP_ABSOLUTE.  (Relative jumps
+	// of that size, and short relative jumps behind an instruction that grows, make the assembler panic;
+	// that is C11's business - such programs are not accepted and so are not part of C12's domain.)
 	var b strings.Builder
-	b.WriteString("v = 1\nif v:\n")
+	b.WriteString("v = 1\n")
 	for i := 0; i < 11000; i++ {
-		b.WriteString("    v = 2\n")
+		b.WriteString("v = 2\n")
 	}
-	b.WriteString("w = 3\nwhile w:\n    w -= 1\n    if w == 1:\n        continue\nelse:\n    v = 4\nx = [i for i in range(3) if i]\n")
+	b.WriteString("w = 3\nwhile w:\n    w -= 1\n    v = w\n    v = w\nfor w in [1, 2]:\n    v = w\n    v = w\n    v = w\n    v = w\n")
 	add("probe_extended_jump.py", b.String())
 	// EXTENDED_ARG on MAKE_FUNCTION (annotations) and MAKE_CLOSURE
 	add("probe_annotations.py", "def outer(q):\n    def f(a: int, b: 'x' = 1, *c: 2, d: 3 = 4, **e: 5) -> 6:\n        return a + b + q\n    return f(1)\nr = outer(2)\ndef g(a: 1) -> 2: return a\ng(3)\n")
+	// 11 nested try/except/finally statements need 22 blocks at run time
+	{
+		var d strings.Builder
+		for i := 0; i < 11; i++ {
+			d.WriteString(strings.Repeat(" ", i) + "try:\n")
+		}
+		d.WriteString(strings.Repeat(" ", 11) + "pass\n")
+		for i := 10; i >= 0; i-- {
+			d.WriteString(strings.Repeat(" ", i) + "except ValueError:\n" + strings.Repeat(" ", i+1) + "pass\n")
+			d.WriteString(strings.Repeat(" ", i) + "finally:\n" + strings.Repeat(" ", i+1) + "pass\n")
+		}
+		out = append(out, &Source{Name: "probe_nest_try_11.py", Origin: "probe", Text: d.String(), Run: true, Class: "probe"})
+	}
 	// loop exits where only a try or with block, not a loop, encloses them
 	add("probe_break_in_try.py", "def f():\n    try:\n        break\n    finally:\n        pass\n")
 	add("probe_break_in_with.py", "class CM:\n    def __enter__(self): return self\n    def __exit__(self, *a): return False\ndef f():\n    with CM():\n        break\n")
 	add("probe_break_in_except.py", "def f():\n    try:\n        pass\n    except ValueError:\n        break\n")
 	add("probe_continue_in_try.py", "def f():\n    try:\n        continue\n    finally:\n        pass\n")
 	add("probe_break_in_finally.py", "def f():\n    try:\n        pass\n    finally:\n        break\n")
+	// decorated functions with defaults, keyword-only defaults, annotations, closures
+	add("probe_decorated.py", "def ident(x):\n    return x\ntry:\n    @ident\n    def f1(a, b=1):\n        return a\n    f1(1)\nexcept TypeError:\n    pass\ndef outer(q):\n    @ident\n    def f2(a, *, k=2):\n        return a + q\n    return f2\n@ident\ndef f3(a: int) -> int:\n    return a\n")
 	// deep block nesting (CO_MAXBLOCKS is 20)
 	for _, depth := range []int{19, 20, 21} {
 		var d strings.Builder
